@@ -573,6 +573,10 @@ def relabelled(ctx, facts, fn, src_rule, dst_rule, only_what=None):
 
 
 def run(ctx, facts):
+    ctx.rule("M8", "bins are mutated and their nodes / values retired only inside a bin-lock region, after re-validating the locked head (rule L1 of C01): "
+                   "otherwise a writer that waited for the lock works on a list that transfer has already copied and retired", floor=11)
+    from .rules_c01 import rule_l1
+    rule_l1(ctx, facts, rule="M8")
     ctx.rule("M7", "a tree bin replaced in its table slot is retired XOR stored into a table again (rule O6 of C04): both = freed while still linked", floor=5)
     from .rules_c04 import rule_o6
     relabelled(ctx, facts, rule_o6, "O6", "M7")
